@@ -47,6 +47,7 @@ typedef struct {
   int rsp_adjust;             /* bytes subtracted from rsp by "sub $n,%rsp" beyond the slot model (never in balance) */
   int halt;                   /* a backward jump was taken: this single pass ends here (later text is not executed) */
   int nlab;                   /* labels defined so far by the code under proof */
+  int call_seen;              /* number of call instructions executed */
   int skip_ev;                /* event index of the jump that started the current skip */
   int bj_label;               /* label table index the back-edge went to (-1: none taken) */
   int bj_at;                  /* event number of the back-edge */
@@ -122,7 +123,7 @@ static inline int gm_parse_reg(const char *s, int n, int *size, _Bool *high) {
 }
 
 // The rendered line: text with symbolic integers replaced by a marker byte 0x01 followed by the argument index.
-#define GM_LINE 200
+#define GM_LINE 300
 typedef struct { char t[GM_LINE]; int n; long iv[4]; } GLine;
 
 static inline long gm_parse_int(const GLine *L, const char *s, int n, _Bool *ok) {
@@ -662,6 +663,11 @@ static inline void gm_exec(const GLine *L, const char *s, int n) {
     if (o1.kind == O_MEM && o2.kind == O_XMM) { m.xmm[o2.reg] = gm_load(&o1, size); return; }   /* load form zeroes the rest */
     m.unknown = 1; return;
   }
+  if (MN("movd")) {
+    if (o1.kind == O_REG && o1.size == 4 && o2.kind == O_XMM) { m.xmm[o2.reg] = gm_get_reg(o1.reg, 4, 0); return; }
+    if (o1.kind == O_XMM && o2.kind == O_REG && o2.size == 4) { gm_set_reg(o2.reg, 4, 0, m.xmm[o1.reg] & 0xffffffffUL); return; }
+    m.unknown = 1; return;
+  }
   if (MN("pxor") || MN("xorps") || MN("xorpd")) {
     if (o1.kind != O_XMM || o2.kind != O_XMM) { m.unknown = 1; return; }
     m.xmm[o2.reg] ^= m.xmm[o1.reg]; return;
@@ -729,6 +735,11 @@ static inline void gm_exec(const GLine *L, const char *s, int n) {
       } else { gm_store(&o1, size, 0); m.unknown = 1; }
     } else if (o1.kind == O_ST) { /* fstp %st(0): pop */ }
     else if (o1.kind != O_MEM) { m.unknown = 1; }
+    else if (MN("fstpt")) {
+      // the 80-bit image itself is outside the model; the integer-valued tag is written to the first 8 bytes so that
+      // the position of a stored long double can be observed (C06 memory arguments)
+      gm_store(&o1, 8, m.st_int[m.x87] == 1 ? (uint64_t)m.st[m.x87] : 0);
+    }
     return;
   }
   if (MN("fstp")) { if (m.x87 <= 0) { m.bad = 1; return; } m.x87--; return; }
